@@ -1914,6 +1914,16 @@ def check_C19(case):
         back = translate_expression(expression_from_sympy(e), SYMPY_DIALECT)
     except (ValueError, NotImplementedError):
         return None, "a construct outside the supported set was refused"
+    except ZeroDivisionError:
+        # an unevaluated sub-expression that IS a division by zero (e.g. an unevaluated product of literals that is 0.0, raised to a negative power): the
+        # expression has no value, so there is nothing to preserve - degenerate input, unless sympy itself can evaluate the expression to a finite value
+        try:
+            v = e.doit()
+            if isinstance(v, sympy.Expr) and not v.has(sympy.zoo, sympy.nan, sympy.oo):
+                return False, f"{e} has the finite value {v} but its translation raises ZeroDivisionError"
+        except ZeroDivisionError:
+            pass
+        return None, "degenerate: a division by zero inside the expression"
     back = sympy.sympify(back)
     fs = sorted(e.free_symbols, key=str)
     if set(back.free_symbols) - set(fs):
